@@ -56,8 +56,15 @@ fn is_strict(o: &Options) -> bool {
 /// Oracles on one parse result of a *string* input, against the independent reference.
 fn oracles_str(out: &mut Out, text: &str, o: Options, reply: &str, res: &Result<(Value, CodeMap), Error>) {
     let chars: Vec<char> = text.chars().collect();
-    if chars.len() > 200_000 {
+    // the reference is a recursive-descent parser: no very deep documents (those are C03's child
+    // process business); size alone is no obstacle (scale streams)
+    if chars.len() > 4_000_000 {
         return;
+    }
+    if chars.len() > 20_000 {
+        let (mut d, mut maxd) = (0i64, 0i64);
+        for c in &chars { match c { '[' | '{' => { d += 1; maxd = maxd.max(d); } ']' | '}' => d -= 1, _ => {} } }
+        if maxd > 4000 { return; }
     }
     let r = ref_parse(&chars, o.accept_truncated_surrogate_pair, o.accept_invalid_codepoints);
     // C01 / C12: verdict
@@ -123,10 +130,16 @@ fn lookup_oracle(out: &mut Out, v: &Value, rv: &RV, reply: &str) {
         (Value::Object(o), RV::Obj(r)) => {
             let mut seen: Vec<&str> = Vec::new();
             let mut maxmult = 0;
-            for (k, _) in r.iter() {
-                if seen.contains(&k.as_str()) {
+            // big objects (scale streams): the per-key scan is quadratic, so only a sample of the keys
+            // is looked up — the first and last 24 and every (len/200)-th in between
+            let big = r.len() > 2500;
+            let stride = (r.len() / 200).max(1);
+            for (pos, (k, _)) in r.iter().enumerate() {
+                if big && !(pos < 24 || pos + 24 >= r.len() || pos % stride == 0) { continue; }
+                if (!big || seen.len() < 400) && seen.contains(&k.as_str()) {
                     continue;
                 }
+                if big && seen.len() >= 400 { continue; }
                 seen.push(k.as_str());
                 let idx: Vec<usize> = r.iter().enumerate().filter(|(_, e)| &e.0 == k).map(|(i, _)| i).collect();
                 let vals: Vec<&RV> = idx.iter().map(|i| &r[*i].1).collect();
@@ -557,6 +570,59 @@ pub fn stream_aliasing(out: &mut Out, opts: &[&str]) {
     }
 }
 
+/// (s) SCALE: sizes that real data reaches and small generators do not — tokens, containers and
+/// whole documents just below, at and just above 2^8, 2^12, 2^16 and 2^18 (narrowing casts, fixed
+/// buffers and blocks, chunked copies, size caps, pre-sizing heuristics). Requests use run-length
+/// notation; beyond 24 000 characters the quadratic executable model answers `skip` and the case is
+/// decided by the independent oracles on the real code.
+pub fn stream_scale(out: &mut Out, thorough: bool, opts: &[&str]) {
+    let mut l = |s: String, out: &mut Out| crate::exec_line(&s, out);
+    let rs = |text: &str, o: &str| format!("parse str {} {}", o, cps_rle(text));
+    let mut n = 0u64;
+    // a multi-byte character, an escape or a surrogate pair straddling every offset around a block
+    // boundary of the DECODED text and of the SOURCE text, in a string and in a key (looked up)
+    let tails = ["é", "€", "😀", "\\u00e9", "\\ud83d\\ude00", "\\n", "\u{7f}"];
+    let bases: &[usize] = if thorough { &[256, 4096, 8192, 12288, 65536, 131072] } else { &[256, 4096, 65536] };
+    for &base in bases {
+        for off in 0..=6usize {
+            for (ti, tail) in tails.iter().enumerate() {
+                if base > 8192 && !thorough && (off + ti) % 3 != 0 { continue; }
+                let body = "a".repeat(base + off - 5);
+                let o = opts[(off + ti) % opts.len()];
+                l(rs(&format!("[\"{}{}tail\",1]", body, tail), o), out);
+                if (off + ti) % 2 == 0 { l(rs(&format!("{{\"{}{}k\":[],\"{}{}k2\":null}}", body, tail, body, tail), o), out); n += 1; }
+                if (off + ti) % 3 == 0 { l(rs(&format!("[\"{}{}\"]", "é".repeat((base + off - 5) / 2), tail), o), out); n += 1; }
+                n += 1;
+            }
+        }
+    }
+    // whole documents of N bytes: one long string, a long number, an array of small items, an object
+    let sizes: &[usize] = if thorough { &[255, 256, 257, 4095, 4096, 4097, 65535, 65536, 65537, 262143, 262144, 262145, 262146, 300001, 1048577] } else { &[4097, 65536, 65537, 262145] };
+    for &size in sizes {
+        let o = opts[size % opts.len()];
+        l(rs(&format!("\"{}\"", "s".repeat(size - 2)), o), out);
+        l(rs(&format!("[\"{}é\",{{\"k\":0}}]", "s".repeat(size.saturating_sub(16))), o), out);
+        l(rs(&format!("-{}.{}e-{}", "7".repeat(size / 2), "3".repeat(size / 2 - 4), "9".repeat(2)), o), out);
+        let items = (size - 1) / 2;
+        l(rs(&format!("[{}1]", "1,".repeat(items - 1)), o), out);
+        l(req_bytes(format!("[{}1] ", "0,".repeat(items - 1)).as_bytes(), o), out);
+        n += 5;
+    }
+    // containers with N items / entries / occurrences of one key
+    let counts: &[usize] = if thorough { &[255, 256, 257, 4095, 4096, 4097, 5000, 65535, 65536, 65537] } else { &[257, 4097, 65537] };
+    for &c in counts {
+        let o = opts[c % opts.len()];
+        l(rs(&format!("[{}null]", "[],".repeat(c - 1)), o), out);
+        l(rs(&format!("{{{}\"last\":[]}}", (0..c - 1).map(|i| format!("\"k{}\":{},", i, i % 10)).collect::<String>()), o), out);
+        if c <= 5000 || thorough { l(rs(&format!("{{{}\"k\":-1}}", (0..c - 1).map(|i| format!("\"k\":{},", i)).collect::<String>()), o), out); n += 1; }
+        // a key and a number longer than the block
+        l(rs(&format!("{{\"{}\":1,\"{}x\":2,\"{}\":3}}", "k".repeat(c), "k".repeat(c), "k".repeat(c)), o), out);
+        n += 3;
+    }
+    out.count_n("stream_scale", n);
+    out.exhaustive.push(format!("scale: a 1/2/3/4-byte character, an escape or a pair at 7 offsets around block boundaries {:?} of a string and of a key; whole documents of {:?} bytes (string, number, array, byte entry point); containers with {:?} items / distinct keys / occurrences of one key / a key that long", bases, sizes, counts));
+}
+
 pub fn gen_streams(out: &mut Out, thorough: bool, opts: &[&str], focus: &str) {
     let mut l = |s: String, out: &mut Out| crate::exec_line(&s, out);
     // (a) bounded-exhaustive over the character alphabet
@@ -711,6 +777,7 @@ pub fn gen_streams(out: &mut Out, thorough: bool, opts: &[&str], focus: &str) {
         }
     }
     stream_aliasing(out, opts);
+    stream_scale(out, thorough, opts);
     // (k) long tokens across internal size thresholds (inline/heap switches of SmallString/SmallVec,
     // stack buffers, chunked copies — whatever their size is): strings and keys with EVERY plain-run
     // length 0..N followed by a 1/2/3/4-byte character, an escape or a surrogate pair and then a
